@@ -45,8 +45,9 @@ ReducedFormUnique == (pc = "run" /\ full) => g.m = GaussImpl(M, TRUE, 1).m
 \* per matrix
 RankDefinitionsAgree == pc = "mat" => Rank(M) = RankElim(M) /\ RankImpl(M) = Rank(M) /\ Rank(Transpose(M)) = Rank(M)
 InverseTwoSided == pc = "mat" => LET iv == InverseImpl(M) IN
-                       /\ InverseOK(M, iv.some, iv.inv, TRUE) /\ InverseOK(M, iv.some, iv.inv, FALSE)
-                       /\ iv.some <=> (R = C /\ \E X \in AllMats(R, R) : Mul(X, M) = Identity(R))
+                       InverseOK(M, iv.some, iv.inv, TRUE) /\ InverseOK(M, iv.some, iv.inv, FALSE)
+\* "invertible" by brute force: some matrix X with X * M = I exists (not used for 4 x 4: 65 536 candidates per matrix)
+InverseIffOneExists == pc = "mat" => (InverseImpl(M).some <=> (R = C /\ \E X \in AllMats(R, R) : Mul(X, M) = Identity(R)))
 NullspaceBasis == pc = "mat" => LET ns == NullspaceImpl(M) IN
                        /\ NullspaceOK(M, ns, TRUE) /\ NullspaceOK(M, ns, FALSE)
                        /\ SpanOf(ns, C) = Kernel(M)
@@ -73,5 +74,6 @@ Stacking == Small => /\ \A k \in 1..2 : \A B \in AllMats(k, C) :
 UpTo(r, c) == (1..r) \X (1..c)
 Shapes_q == UpTo(3, 3) \cup UpTo(2, 4)
 Shapes_t == UpTo(3, 4) \cup UpTo(4, 3)
-Shapes_x == UpTo(4, 4)
+\* wider / taller shapes for the additional thorough config (core invariants only)
+Shapes_x == {<<4, 4>>, <<3, 5>>, <<2, 6>>}
 =============================================================================
